@@ -77,7 +77,22 @@ class RngStub:
         return self.choice(np.arange(lo, hi), size)
 
     def random(self, size=None):
-        raise Unsupported("RngStub.random (continuous draws) is not modelled")
+        """continuous draws: arbitrary reals in [0, 1), one fresh symbol per draw (the stream is a function of the seed)"""
+        from symx.core import cur
+
+        n = 1 if size is None else int(np.prod(size))
+        vals = []
+        for _ in range(n):
+            v = real(f"u_s{self.seed}_{self.n}")
+            self.n += 1
+            cur().assume(z3.And(v.e >= 0, v.e < 1))
+            vals.append(v)
+        if size is None:
+            return vals[0]
+        return to_symarray(vals).reshape(size if isinstance(size, tuple) else (int(size),))
+
+    def uniform(self, low=0.0, high=1.0, size=None):
+        return self.random(size) * (high - low) + low
 
 
 class _Picks:
@@ -202,6 +217,32 @@ def replay_split(n, n_set=1):
     return run
 
 
+def replay_chunked_average(cex):
+    """installed library with a tiny dask chunk size, so that the 'auto' rechunk of the sub-tomogram stack gives several unequal chunks: the average is still the plain mean"""
+    with load.real_modules():
+        import dask
+        from acryo import SubtomogramLoader, BatchLoader, Molecules
+
+        rng = np.random.default_rng(0)
+        tomo = rng.normal(size=(24, 24, 24)).astype(np.float32)
+        bad = {}
+        with dask.config.set({"array.chunk-size": "1KiB"}):
+            for n in (5, 11, 20):
+                mole = Molecules(rng.uniform(6, 17, size=(n, 3)))
+                ld = SubtomogramLoader(tomo, mole, order=1, output_shape=(3, 3, 3))
+                sub = ld.asnumpy()
+                err = float(np.abs(ld.average() - sub.mean(axis=0)).max())
+                if err > 1e-5:
+                    bad[f"n={n}"] = err
+            bl = BatchLoader(order=1, scale=1.0, output_shape=(3, 3, 3))
+            bl.add_tomogram(tomo, Molecules(rng.uniform(6, 17, size=(13, 3))))
+            bl.add_tomogram(tomo * 2 + 1, Molecules(rng.uniform(6, 17, size=(4, 3))))
+            err = float(np.abs(bl.average() - bl.construct_dask().compute().mean(axis=0)).max())
+            if err > 1e-5:
+                bad["batch 13+4"] = err
+        return len(bad) > 0, {"max_abs_err_vs_plain_mean": bad}
+
+
 def sec_average(rec, n=3, patches=None):
     L = _load(patches)
     SL = _loader_class(L)
@@ -211,14 +252,25 @@ def sec_average(rec, n=3, patches=None):
     API = L["acryo.backend._api"]
     xp = stubs.make_backend(API, API.np, None)
     L["acryo.loader._base"].Backend = lambda *a, **k: xp
+    from symx.daskstub import LazyStack
+
+    # the stack as one chunk, and cut by the "auto" rechunk into unequal pieces (n - 1, 1) and (1, n - 1): the mean must not depend on the chunk layout
+    splits = [None] + ([lambda m: (m - 1, 1) if m >= 2 else (m,), lambda m: (1, m - 1) if m >= 2 else (m,)] if n >= 3 else [])
     with L.installed():
-        for pth in explore(lambda: SL(_mk(L, n), vals).average(), max_paths=10):
-            if not pth.ok:
-                rec.fact(f"average[n={n}]/runs", False, key="C09/average/raises", detail={"exc": repr(pth.exc)[:200]}, reproduced=replay_split(n)({})[0])
-                continue
-            out = _obj(pth.result)
-            want = sum((v.e for v in vals), z3.RealVal(0)) / n
-            rec.query(f"average[n={n}]/arithmetic-mean", [], zr(out[0, 0, 0]) == want, key="C09/average/not-the-mean", replay=replay_split(n), twin=False)
+        for si, split in enumerate(splits):
+            LazyStack.AUTO_SPLIT = split
+            try:
+                paths = explore(lambda: SL(_mk(L, n), vals).average(), max_paths=10)
+            finally:
+                LazyStack.AUTO_SPLIT = None
+            tag = f"average[n={n}" + ("" if split is None else f",chunks={split(n)}") + "]"
+            for pth in paths:
+                if not pth.ok:
+                    rec.fact(f"{tag}/runs", False, key="C09/average/raises", detail={"exc": repr(pth.exc)[:200]}, reproduced=replay_chunked_average({})[0] if split else replay_split(n)({})[0])
+                    continue
+                out = _obj(pth.result)
+                want = sum((v.e for v in vals), z3.RealVal(0)) / n
+                rec.query(f"{tag}/arithmetic-mean", [], zr(out[0, 0, 0]) == want, key="C09/average/not-the-mean", replay=replay_chunked_average if split else replay_split(n), twin=False)
 
 
 def sec_split(rec, n=4, n_set=1, patches=None):
@@ -591,7 +643,7 @@ def run(tier, procs=None, only=None):
 
 
 # every real-library oracle of this property (each returns (reproduced, detail)); used to confirm structural facts that carry no replay of their own
-ALL_REPLAYS = [lambda c: replay_split(4)(c), lambda c: replay_split(3, 2)(c), replay_batch, replay_reuse]
+ALL_REPLAYS = [lambda c: replay_split(4)(c), lambda c: replay_split(3, 2)(c), replay_batch, replay_reuse, replay_chunked_average]
 
 
 def replay(data):
